@@ -1214,12 +1214,13 @@ def run_test(ctx: FunctionContext) -> TestResult:
     elif counter["err"] > 0:
         passfail = color_error("[ERROR]")
         exitcode = Exitcode.EXCEPTION.value
+    elif len(stuck) > 0:
+        # note: an error takes precedence over a timeout
+        passfail = color_error("[ERROR]")
+        exitcode = Exitcode.STUCK.value
     elif counter["unknown"] > 0:
         passfail = color_warn("[TIMEOUT]")
         exitcode = Exitcode.TIMEOUT.value
-    elif len(stuck) > 0:
-        passfail = color_error("[ERROR]")
-        exitcode = Exitcode.STUCK.value
     elif normal == 0:
         passfail = color_error("[ERROR]")
         exitcode = Exitcode.REVERT_ALL.value
